@@ -244,3 +244,115 @@ Section HashThms.
     rewrite od_get_set_other; [reflexivity|]. intros X; apply NK; rewrite X; reflexivity.
   Qed.
 End HashThms.
+
+(* ------------------------------------------------------------------ *)
+(* PDFSet: the order in which two PDFs are added does not matter for lookups *)
+Section PdfOrder.
+  Variable H : list item -> Z.
+
+  Lemma od_get_set : forall {V} (d : od V) k v k',
+    od_get (od_set d k v) k' = if k =? k' then Some v else od_get d k'.
+  Proof.
+    intros V d k v k'. destruct (Z.eqb_spec k k').
+    - subst. apply od_get_set_same.
+    - apply od_get_set_other; assumption.
+  Qed.
+
+  Theorem pdfset_add_commute : forall s p1 d1 p2 d2 s1 s12 s2 s21,
+    pdfset_add H s p1 (GDict d1) = (s1, Ok tt) -> pdfset_add H s1 p2 (GDict d2) = (s12, Ok tt) ->
+    pdfset_add H s p2 (GDict d2) = (s2, Ok tt) -> pdfset_add H s2 p1 (GDict d1) = (s21, Ok tt) ->
+    forall g, pdfset_get H s12 g = pdfset_get H s21 g.
+  Proof.
+    intros s p1 d1 p2 d2 s1 s12 s2 s21 E1 E12 E2 E21 g.
+    unfold pdfset_add in *. cbn [make_dict_hash] in *.
+    rewrite ?K_mdh, ?K_pdfset_add_key in *.
+    set (k1 := H (canon_items d1)) in *. set (k2 := H (canon_items d2)) in *.
+    destruct (negb (pis_pdf p1)); [inversion E1|]. destruct (negb (pis_pdf p2)); [inversion E12|].
+    destruct (od_mem s k1) eqn:M1; [inversion E1|].
+    destruct (od_mem s k2) eqn:M2; [inversion E2|].
+    match type of E1 with (if ?c then _ else _) = _ => destruct c end; [|inversion E1].
+    match type of E2 with (if ?c then _ else _) = _ => destruct c end; [|inversion E2].
+    inversion E1; subst s1. inversion E2; subst s2. clear E1 E2.
+    destruct (od_mem (od_set s k1 p1) k2) eqn:M12; [inversion E12|].
+    destruct (od_mem (od_set s k2 p2) k1) eqn:M21; [inversion E21|].
+    match type of E12 with (if ?c then _ else _) = _ => destruct c end; [|inversion E12].
+    match type of E21 with (if ?c then _ else _) = _ => destruct c end; [|inversion E21].
+    inversion E12; subst s12. inversion E21; subst s21. clear E12 E21.
+    rewrite od_mem_set in M12. apply orb_false_iff in M12. destruct M12 as [N12 _].
+    apply Z.eqb_neq in N12.
+    unfold pdfset_get. destruct g as [k|d|]; cbn [make_dict_hash]; try reflexivity;
+      rewrite ?K_mdh, ?K_pdfset_get_key_int, ?K_pdfset_get_key_dict, ?K_pdfset_get_value_idx0;
+      rewrite !od_get_set;
+      match goal with |- context [k2 =? ?x] => destruct (Z.eqb_spec k2 x); destruct (Z.eqb_spec k1 x); try reflexivity; congruence end.
+  Qed.
+End PdfOrder.
+
+(* ------------------------------------------------------------------ *)
+(* DatasetCollection: the dict stays keyed by the dataset names *)
+Definition dsc_ok (c : dsc) : Prop :=
+  NoDup (od_keys c) /\ forall k o, In (k, o) c -> oname o = k /\ issub (ocls o) CBase = true.
+
+Lemma od_set_in_k : forall {V} (d : od V) k v k' v',
+  In (k', v') (od_set d k v) -> In (k', v') d \/ (k' = k /\ v' = v).
+Proof.
+  induction d as [|[k0 v0] t IH]; intros k v k' v' I; cbn in I.
+  - destruct I as [I|[]]. inversion I; auto.
+  - destruct (Z.eqb_spec k0 k).
+    + destruct I as [I|I]; [inversion I; subst; auto | left; right; exact I].
+    + destruct I as [I|I]; [left; left; exact I|].
+      destruct (IH _ _ _ _ I) as [X|X]; [left; right; exact X | right; exact X].
+Qed.
+
+Lemma od_del_in : forall {V} (d : od V) k k' v, In (k', v) (od_del d k) -> In (k', v) d.
+Proof.
+  induction d as [|[k0 v0] t IH]; intros k k' v I; [exact I|]. cbn in I.
+  destruct (k0 =? k); [right; exact I|]. destruct I as [I|I]; [left; exact I | right; eapply IH; eauto].
+Qed.
+
+Lemma od_del_nodup : forall {V} (d : od V) k, NoDup (od_keys d) -> NoDup (od_keys (od_del d k)).
+Proof.
+  unfold od_keys. induction d as [|[k0 v0] t IH]; intros k N; [exact N|]. cbn in *.
+  inversion N as [|? ? Nk Nt]; subst. destruct (k0 =? k); [exact Nt|]. cbn. constructor.
+  - intros X. apply Nk. apply in_map_iff in X. destruct X as ([k1 v1] & E1 & I1). cbn in E1; subst.
+    apply in_map_iff. exists (k0, v1). split; [reflexivity | eapply od_del_in; eauto].
+  - apply IH; exact Nt.
+Qed.
+
+Lemma dsc_add_ok : forall ds c c' r, dsc_ok c -> dsc_add c ds = (c', r) -> dsc_ok c'.
+Proof.
+  induction ds as [|o t IH]; intros c c' r Ok E; cbn in E; [inversion E; subst; exact Ok|].
+  destruct (negb (issub (ocls o) CBase)) eqn:Ty; [inversion E; subst; exact Ok|].
+  destruct (od_mem c (oname o)) eqn:M; [inversion E; subst; exact Ok|].
+  eapply IH; [|exact E]. destruct Ok as [N A]. split.
+  - apply od_keys_set_nodup; exact N.
+  - intros k o' I. destruct (od_set_in_k _ _ _ _ _ I) as [X|[X1 X2]]; [apply A; exact X|].
+    subst. split; [reflexivity|]. apply negb_false_iff in Ty; exact Ty.
+Qed.
+
+Lemma dstep_ok : forall c o, dsc_ok c -> dsc_ok (fst (dstep c o)).
+Proof.
+  intros c [ds|n] Ok; cbn [dstep].
+  - destruct (dsc_add c ds) as [c' r] eqn:E. cbn. eapply dsc_add_ok; eauto.
+  - unfold dsc_remove. destruct (od_mem c n); cbn; [|exact Ok]. destruct Ok as [N A]. split.
+    + apply od_del_nodup; exact N.
+    + intros k o I. apply A. eapply od_del_in; eauto.
+Qed.
+
+Lemma od_get_in : forall {V} (d : od V) k v, od_get d k = Some v -> In (k, v) d.
+Proof.
+  induction d as [|[k0 v0] t IH]; intros k v E; [discriminate|]. cbn in E.
+  destruct (Z.eqb_spec k0 k); [inversion E; subst; left; reflexivity | right; apply IH; exact E].
+Qed.
+
+Theorem dataset_collection_keys : forall ops,
+  dsc_ok (drun [] ops)
+  /\ forall n o, dsc_get (drun [] ops) n = Ok o -> oname o = n.
+Proof.
+  intros ops.
+  assert (G : forall ops c, dsc_ok c -> dsc_ok (drun c ops)).
+  { induction ops0 as [|o t IH]; intros c Ok; [exact Ok|]. cbn. apply IH. apply dstep_ok; exact Ok. }
+  assert (K0 : dsc_ok []) by (split; [constructor | intros k o []]).
+  split; [apply G; exact K0|].
+  intros n o E. unfold dsc_get in E. destruct (od_get (drun [] ops) n) as [o'|] eqn:Eg; [|discriminate].
+  inversion E; subst o'. apply od_get_in in Eg. apply (proj2 (G ops [] K0)) in Eg. tauto.
+Qed.
